@@ -95,7 +95,7 @@ PROPS['C19'] = A(level='exploration', engine='enumerate', harnesses=[A(src='harn
     assumptions=TRUST + ['glibc snprintf in the C locale as the embodiment of ISO C for the ISO-defined directive space'])
 
 PROPS['C20'] = A(level='exploration', engine='enumerate', harnesses=[A(src='harness/c20_parsers.cpp', san='asan')], budget=A(quick=150, thorough=1500),
-    bounds=A(quick='printf_format+do_printf_*: every string of length <=5 over {%,d,s,c,x,p,l,h,z,*,.,$,0,1,9,-,+,#,space,a} with a hand-built va_list over an exact-size guarded slot array; fmt(): every string <=6 over {{,},:,0,1,9,x,c,h,a} with 0-2 arguments of 4 type lists; parse_arguments: every string <=7 over {space,quote,=,f,o,1,9,x} against 6 option tables; to_number<int|unsigned|long|uint64_t|int8_t|short>: every string <=6 over {0,1,9,-,+,space,a}; plus digit runs of length 7..25 at every numeric position of every grammar and the decimal images of all type limits +-1',
+    bounds=A(quick='printf_format+do_printf_*: every string of length <=5 over {%,d,s,c,x,p,l,h,z,*,.,$,0,1,9,-,+,#,space,a} and every string of length <=4 over {%,f,F,e,g,L,j,t,o,u,X,i,b,n,apostrophe,.,*,1,l,h,#} with a hand-built va_list over an exact-size guarded slot array, each once with a universal argument value and once with all-zero slots (null strings, zero widths); 20 classes of floating-point values x 64 flag subsets x widths x precisions through a real variadic call; fmt(): every string <=6 over {{,},:,0,1,9,x,c,h,a} with 0-2 arguments of 4 type lists; parse_arguments: every string <=7 over {space,quote,=,f,o,1,9,x} against 6 option tables; to_number<int|unsigned|long|uint64_t|int8_t|short>: every string <=6 over {0,1,9,-,+,space,a}; plus digit runs of length 7..25 at every numeric position of every grammar and the decimal images of all type limits +-1',
              thorough='printf <=6, fmt <=8, cmdline <=8, to_number <=8'),
     rule='cases = every byte string of the stated alphabets up to the length bound (odometer enumeration), each distinct; non-trivial = all; inputs live in exact-size buffers ending at a PROT_NONE page; oracle = termination, no ASan/UBSan report (signed overflow included), no fault, sink/target canaries intact, va_list cursor within the slots the directives account for; stopping in frg_panic is a legal outcome',
     technique='exhaustive enumeration of all inputs up to a length bound executed on the real parsers under ASan/UBSan with guard pages',
